@@ -474,5 +474,8 @@ func scTemplateWalk(g *graph.G, walk []int, dir string, ids map[string]bool, idm
 			}
 		}
 	}
+	if os.Getenv("VERIF_DEBUG") != "" {
+		fmt.Println("TWALK", t0, hist)
+	}
 	return fs
 }
